@@ -90,7 +90,8 @@ PaceUpd(ev) ==
        THEN /\ pacerStop' = TRUE
             /\ UNCHANGED <<paceOK, wake>>
        ELSE /\ paceOK' = paceOK + 1
-            /\ wake' = Append(wake, ev.t + Max(ev.wait, 0))
+            \* the wait counts from the moment the pacer returned it (rt: logged by pacers that take time to answer)
+            /\ wake' = Append(wake, (IF "rt" \in DOMAIN ev THEN ev.rt ELSE ev.t) + Max(ev.wait, 0))
             /\ UNCHANGED pacerStop
     /\ UNCHANGED <<cfg, targ, targErr, entered, exited, recvd, trying, closed, pending, stopCalls, stopTrue>>
 
